@@ -5,6 +5,7 @@ package fees
 
 import (
 	"encoding/binary"
+	"math/bits"
 	"sync"
 
 	"github.com/ava-labs/avalanchego/utils/math"
@@ -223,13 +224,7 @@ func computeNextPriceWindow(
 	nextPrice := previousPrice
 	if total > target {
 		// If the parent block used more units than its target, the baseFee should increase.
-		delta := total - target
-		x := previousPrice * delta
-		y := x / target
-		baseDelta := y / changeDenom
-		if baseDelta < 1 {
-			baseDelta = 1
-		}
+		baseDelta := priceDelta(previousPrice, total-target, target, changeDenom)
 		n, over := math.Add(nextPrice, baseDelta)
 		if over != nil {
 			nextPrice = consts.MaxUint64
@@ -238,13 +233,7 @@ func computeNextPriceWindow(
 		}
 	} else if total < target {
 		// Otherwise if the parent block used less units than its target, the baseFee should decrease.
-		delta := target - total
-		x := previousPrice * delta
-		y := x / target
-		baseDelta := y / changeDenom
-		if baseDelta < 1 {
-			baseDelta = 1
-		}
+		baseDelta := priceDelta(previousPrice, target-total, target, changeDenom)
 
 		// If [roll] is greater than [rollupWindow], apply the state transition to the base fee to account
 		// for the interval during which no blocks were produced.
@@ -252,7 +241,11 @@ func computeNextPriceWindow(
 		// that has elapsed between the parent and this block.
 		if since > window.WindowSize {
 			// Note: roll/rollupWindow must be greater than 1 since we've checked that roll > rollupWindow
-			baseDelta *= since / window.WindowSize
+			scaled, over := math.Mul(baseDelta, since/window.WindowSize)
+			if over != nil {
+				scaled = consts.MaxUint64
+			}
+			baseDelta = scaled
 		}
 		n, under := math.Sub(nextPrice, baseDelta)
 		if under != nil {
@@ -265,6 +258,26 @@ func computeNextPriceWindow(
 		nextPrice = minPrice
 	}
 	return nextPrice, newRollupWindow
+}
+
+// priceDelta returns previousPrice * delta / target / changeDenom (at least 1).
+// The product is computed on 128 bits so that it cannot wrap around; a result
+// that does not fit into 64 bits saturates at the maximum value.
+func priceDelta(previousPrice, delta, target, changeDenom uint64) uint64 {
+	hi, lo := bits.Mul64(previousPrice, delta)
+	// (hi, lo) / target
+	yHi, rem := hi/target, hi%target
+	yLo, _ := bits.Div64(rem, lo, target)
+	// (yHi, yLo) / changeDenom
+	baseDeltaHi, rem := yHi/changeDenom, yHi%changeDenom
+	baseDelta, _ := bits.Div64(rem, yLo, changeDenom)
+	if baseDeltaHi != 0 {
+		return consts.MaxUint64
+	}
+	if baseDelta < 1 {
+		baseDelta = 1
+	}
+	return baseDelta
 }
 
 type Rules interface {
